@@ -80,6 +80,38 @@ def directed():
             [{"o": "UNLOCK", "w": 0, "t": 2}]
     mixed["0"] = [{"o": "DELAY", "us": 5000}] + _rmw(0, 2, 1, 100, True)
     D.append(("mixed-exclusive-vs-shared", {"np": 4, "types": [], "wins": _win(4), "phases": [{"kind": "mixed", "w": 0, "ranks": mixed}]}))
+    # compare-and-swap then fetch of the same element by the same origin (MPI orders them), single exclusive section
+    D.append(("excl-cas-then-fetch", {"np": 2, "types": [], "wins": _win(2), "phases": [{"kind": "excl", "w": 0, "ranks": {"0": [
+        {"o": "LOCK", "w": 0, "lt": "x", "t": 1},
+        {"o": "CAS", "id": 1, "w": 0, "t": 1, "idx": 0, "new": 111, "cmp": 1005},
+        {"o": "FOP", "id": 2, "w": 0, "t": 1, "idx": 0, "op": "NO_OP", "val": 0},
+        {"o": "FLUSH", "w": 0, "t": 1}, {"o": "UNLOCK", "w": 0, "t": 1}, {"o": "SHOW", "id": 1}, {"o": "SHOW", "id": 2}],
+        "1": [{"o": "LOCK", "w": 0, "lt": "x", "t": 1}, {"o": "FOP", "id": 1, "w": 0, "t": 1, "idx": 1, "op": "SUM", "val": 1},
+              {"o": "UNLOCK", "w": 0, "t": 1}, {"o": "SHOW", "id": 1}]}}]}))
+    # Fetch_and_op(REPLACE) racing with Accumulate(REPLACE) under lock_all: per-element atomicity
+    D.append(("shared-fop-vs-acc-replace", {"np": 3, "types": [], "wins": _win(3), "phases": [{"kind": "shared", "w": 0, "ranks": {
+        "1": [{"o": "LOCKALL", "w": 0}, {"o": "DELAY", "us": 3000},
+              {"o": "ACC", "w": 0, "t": 0, "idx": 0, "tc": 1, "tt": "e", "oc": 1, "ot": "e", "op": "REPLACE", "vals": [43]},
+              {"o": "UNLOCKALL", "w": 0}],
+        "2": [{"o": "LOCKALL", "w": 0}, {"o": "FOP", "id": 1, "w": 0, "t": 0, "idx": 0, "op": "REPLACE", "val": 85},
+              {"o": "UNLOCKALL", "w": 0}, {"o": "SHOW", "id": 1}]}}]}))
+    # accumulate through a vector datatype whose stride equals its block length
+    va = {}
+    for r in range(2):
+        va[str(r)] = [{"o": "FENCE", "w": 0, "a": 0},
+                      {"o": "ACC", "w": 0, "t": 1 - r, "idx": 0, "tc": 1, "tt": "0", "oc": 4, "ot": "e", "op": "SUM", "vals": [1, 2, 3, 4]},
+                      {"o": "FENCE", "w": 0, "a": 0}]
+    D.append(("fence-acc-contiguous-vector", {"np": 2, "types": [{"base": "i", "kind": "vector", "args": [2, 2, 2]}], "wins": _win(2, 6),
+                                              "phases": [{"kind": "fence", "w": 0, "ranks": va}]}))
+    # two fence epochs (no assertion), then both ranks expose and access with post/start/complete/wait
+    fp = {str(r): [{"o": "FENCE", "w": 0, "a": 0},
+                   {"o": "PUT", "w": 0, "t": 1 - r, "idx": 1, "tc": 1, "tt": "e", "oc": 1, "ot": "e", "vals": [600 + r]},
+                   {"o": "FENCE", "w": 0, "a": 0}] for r in range(2)}
+    pp = {str(r): [{"o": "POST", "w": 0, "g": [1 - r]}, {"o": "START", "w": 0, "g": [1 - r]},
+                   {"o": "PUT", "w": 0, "t": 1 - r, "idx": 0, "tc": 1, "tt": "e", "oc": 1, "ot": "e", "vals": [700 + r]},
+                   {"o": "COMPLETE", "w": 0}, {"o": "WAIT", "w": 0}] for r in range(2)}
+    D.append(("fence-then-pscw", {"np": 2, "types": [], "wins": _win(2), "phases": [{"kind": "fence", "w": 0, "ranks": fp},
+                                                                                 {"kind": "pscw", "w": 0, "ranks": pp}]}))
     # fence ring: put to the right neighbour, get from the left one, accumulate on rank 0
     ring = {}
     for r in range(4):
@@ -159,7 +191,7 @@ def run(ctx):
     jobs = [("directed:" + name, prog) for name, prog in directed()]
     for i in range(n):
         rng = ctx.sub_rng(i)
-        profile = "clean" if rng.random() < 0.65 else "any"
+        profile = "clean" if rng.random() < 0.7 else rng.choice(G.TRIGGERS)
         jobs.append(("gen:%d:%s" % (i, profile), G.generate(rng, profile)))
 
     def one(job):
